@@ -319,6 +319,40 @@ func runC15(c *sim.Ctx) *sim.Violation {
 			return sim.V("C15/public-api/subscription-identifier/round-trip", "SUBSCRIBE with subscription identifier %d does not read back: %s", v, o)
 		}
 	}
+	// the same value arriving in a foreign encoder's SUBSCRIBE frame, 0 included
+	// (MQTT forbids identifier 0; a decoder may refuse such a frame - but one that
+	// accepts it must report the value that is there, both ways of decoding)
+	{
+		v := c15Bounds[t.Int(len(c15Bounds))]
+		if t.Bool(1, 4) {
+			v = 0
+		}
+		a := &ref.AP{Type: ref.Subscribe, Flags: 2, PacketID: 1, Filters: []ref.Filter{{Name: []byte("a")}}, Props: []ref.Prop{{ID: 0x0B, N: v}}}
+		frame, _ := ref.Encode(a)
+		if d, derr := ref.Decode(frame, true); derr == nil && len(d.Props) == 1 && d.Props[0].ID == 0x0B && d.Props[0].N == v {
+			o := ReadOne(link.NewReader(c, frame, link.Mode{}))
+			switch {
+			case o.Kind == "packet":
+				if got := o.P.(*mq.Subscribe).SubscriptionID(); got != int(v) {
+					return sim.V("C15/decode/subscription-identifier-in-subscribe/value", "SUBSCRIBE frame %x carries subscription identifier %d; ReadPacket returns a packet whose SubscriptionID() is %d", frame, v, got)
+				}
+				c.Count("probe.subscription-identifier-decoded-from-a-foreign-SUBSCRIBE")
+			case v == 0:
+				c.Count("note.subscription-identifier-0-refused")
+			default:
+				return sim.V("C15/decode/subscription-identifier-in-subscribe/rejected", "SUBSCRIBE frame %x (subscription identifier %d): %s", frame, v, o)
+			}
+			if _, body, _, err := ref.SplitFrame(frame); err == nil {
+				q := mq.NewSubscribe()
+				var uerr error
+				if pi := sim.Guard(func() { uerr = q.UnmarshalBinary(body) }); pi == nil && uerr == nil {
+					if got := q.SubscriptionID(); got != int(v) {
+						return sim.V("C15/decode/subscription-identifier-in-subscribe/value", "SUBSCRIBE body %x carries subscription identifier %d; after UnmarshalBinary SubscriptionID() is %d", body, v, got)
+					}
+				}
+			}
+		}
+	}
 	// several subscription identifiers in one PUBLISH: each is decoded by the same
 	// in-memory decoder, one after the other
 	{
